@@ -159,7 +159,7 @@ impl Prop for C19 {
         vec!["abstracts with ports are outside the claim (import_abstract_port is an acknowledged todo!())".into()]
     }
     fn plan(&self, tier: Tier) -> Vec<GenSpec> {
-        vec![GenSpec::random("roundtrip", tier.pick(30_000, 400_000)), GenSpec::random("message-faults", tier.pick(1_500, 60_000))]
+        vec![GenSpec::random("roundtrip", tier.pick(30_000, 1_200_000)), GenSpec::random("message-faults", tier.pick(1_500, 150_000))]
     }
     fn run_case(&self, cx: &mut Cx) {
         let g = rand_placed_lib(&mut cx.rng, 6, true);
